@@ -204,7 +204,13 @@ func genC14(r *Rng, e *Emitter, n int) {
 				calc := xy.NewLineCentroidCalculator(l)
 				for j := range lines {
 					e.emit("C14.lines", "("+strings.Join(runs[:j+1], " ")+")", guard(func() string {
-						calc.AddLine(lines[j])
+						lc := lines[j].Clone()
+						calc.AddLine(lc)
+						if fc := lc.FlatCoords(); j%2 == 0 {
+							for q := range fc {
+								fc[q] = -7777.5
+							}
+						}
 						if j%2 == 1 {
 							calc.GetCentroid()
 						}
@@ -303,10 +309,24 @@ func genC14(r *Rng, e *Emitter, n int) {
 				// polygons added so far
 				e.tally("polys-incremental")
 				calc := xy.NewAreaCentroidCalculator(l)
+				var added [][]float64
 				for j := range polys {
 					e.emit("C14.polys", "("+strings.Join(psx[:j+1], " ")+")", guard(func() string {
-						calc.AddPolygon(polys[j])
-						if j%2 == 1 {
+						// the polygon is handed over from a buffer the caller reuses straight away (polygons
+						// streamed through one array): what was added is its value at the time of the call
+						pc := polys[j].Clone()
+						calc.AddPolygon(pc)
+						added = append(added, pc.FlatCoords())
+						if j == len(polys)-1 {
+							// (once the last polygon is in: the calculator reads its first polygon's first
+							// vertex again, as the base of its fan, whenever another polygon is added)
+							for _, fc := range added {
+								for q := range fc {
+									fc[q] = -7777.5
+								}
+							}
+						}
+						if j%2 == 1 && j < len(polys)-1 {
 							calc.GetCentroid() // asking twice changes nothing
 						}
 						return okPt(calc.GetCentroid())
